@@ -26,7 +26,7 @@ var codeReading = map[string]string{
 
 func c06Check(cc *run.Case, ns namedStrat, class string, n int) {
 	row := ns.Row
-	snaps := reg.Snaps(gen.Bars(cc.R, class, n))
+	snaps := reg.Snaps(c01Bars(cc.R, class, n))
 	cc.Desc(map[string]any{"strategy": ns.Name, "class": class, "n": n, "w_s": ns.Warm})
 	inst := ns.New()
 	if n == 251 {
@@ -181,9 +181,9 @@ func c06(ctx *run.Ctx) {
 	c06Ctors(ctx)
 	c06Smoothing(ctx)
 	base := baseStrats(ctx, ctx.Pick(8, 60))
-	classes := []string{gen.Walk, gen.Walk2, gen.Dyadic, gen.Ties, gen.Degen, gen.Halt}
+	classes := []string{gen.Walk, gen.Walk2, gen.Dyadic, gen.Ties, gen.Degen, gen.Halt, "tiny"}
 	if !ctx.Quick() {
-		classes = append(append([]string(nil), gen.OHLCVClasses...), gen.Halt)
+		classes = append(append([]string(nil), gen.OHLCVClasses...), gen.Halt, "tiny", "huge")
 	}
 	for _, row := range reg.SortedStrats() {
 		ctx.Count("cmp:"+row.Name, 0)
